@@ -79,6 +79,9 @@ func c15Alphabet() []c15Op {
 	for _, sz := range c15Sizes {
 		ops = append(ops, c15Op{Kind: "resize", Size: sz})
 	}
+	for _, sz := range []int{32, 96, 64000} {
+		ops = append(ops, c15Op{Kind: "resize-raw", Size: sz})
+	}
 	return ops
 }
 
@@ -101,6 +104,8 @@ func c15Apply(t *transp.Table, m *ttmodel.Model, op c15Op) {
 	case "resize":
 		t.Resize(op.Size)
 		t.Clear()
+	case "resize-raw":
+		t.Resize(op.Size) // no clear: contents unspecified, only memory safety of continued use is judged
 	}
 }
 
@@ -111,9 +116,26 @@ func c15Run(size int, ops []c15Op) c15Result {
 	t := transp.New(size)
 	t.Clear()
 	m := ttmodel.New()
+	unspecified := false // after a resize without clear nothing is judged until the next clear
 	for step, op := range ops {
 		fresh := false
 		bucket := -1
+		if op.Kind == "resize-raw" {
+			unspecified = true
+		} else if op.Kind != "insert" {
+			unspecified = false
+		}
+		if unspecified {
+			// memory safety of continued use: operate and probe, judge nothing
+			c15Apply(t, m, op)
+			m.Clear()
+			for _, k := range c15Keys {
+				if e, ok := t.LookUp(board.Hash(k)); ok {
+					_, _, _, _ = e.Depth(), e.Type(), e.Value(5), e.Move
+				}
+			}
+			continue
+		}
 		switch op.Kind {
 		case "insert":
 			bucket = t.VerifBucketIx(board.Hash(op.Store.Key))
@@ -254,7 +276,7 @@ func runC15(r *ev.Run) {
 					hits.Add(int64(res.hits))
 					cur := nd.size
 					for _, o := range ops {
-						if o.Kind == "resize" {
+						if o.Kind == "resize" || o.Kind == "resize-raw" {
 							cur = o.Size
 						}
 					}
@@ -297,7 +319,7 @@ func runC15(r *ev.Run) {
 	r.Nontrivial.Store(states.Load())
 	r.Set("product_cases", prod)
 	r.Set("distinct_outcomes", map[string]int64{"evictions_observed": evictions.Load(), "probe_hits_checked": hits.Load()})
-	r.Set("rule", "explicit-state BFS over operation sequences on the real Table (alphabet: Insert of 10 keys built to share bucket and/or signature x 8 parameter sets on the rule boundaries, Clear, Resize+Clear to 32/64/96/32000 bytes), successors by replay on a fresh table, states de-duplicated by table digest; after EVERY operation all keys are probed at plies 0,1,63 and compared with the reference model; plus complete products: mate re-basing for every value x store ply x probe ply, the two-store interaction for all depth pairs x types x generations x moves, bucket overflow for depth/generation patterns, lane matching over lane alphabets x all 2^16 keys")
+	r.Set("rule", "explicit-state BFS over operation sequences on the real Table (alphabet: Insert of 10 keys built to share bucket and/or signature x 8 parameter sets on the rule boundaries, Clear, Resize+Clear to 32/64/96/32000 bytes, Resize without Clear (memory safety of continued use only)), successors by replay on a fresh table, states de-duplicated by table digest; after EVERY operation all keys are probed at plies 0,1,63 and compared with the reference model; plus complete products: mate re-basing for every value x store ply x probe ply, the two-store interaction for all depth pairs x types x generations x moves, bucket overflow for depth/generation patterns, lane matching over lane alphabets x all 2^16 keys")
 	r.Assume("bucket membership is asked of the implementation (verif hook VerifBucketIx), signature = top 16 bits as stated by the property")
 	r.Assume("for the exact boundary value +-(Inf-MaxPlies) both readings (mate distance, plain score) are accepted; the contents after a resize without clear are not judged; keys with an all-zero signature are excluded from the no-phantom clause")
 }
